@@ -112,12 +112,19 @@ type respScript struct {
 }
 
 type httpTarget struct {
-	mu     sync.Mutex // nosim
-	t0     time.Time
-	seen   []seenReq
-	Script func(n int, r *seenReq) respScript
-	srv    *http.Server
-	ln     net.Listener
+	mu       sync.Mutex // nosim
+	t0       time.Time
+	seen     []seenReq
+	Script   func(n int, r *seenReq) respScript
+	srv      *http.Server
+	ln       net.Listener
+	connects []string // authority of every CONNECT request received
+}
+
+func (t *httpTarget) Connects() []string {
+	t.mu.Lock()
+	defer t.mu.Unlock()
+	return append([]string(nil), t.connects...)
 }
 
 func (t *httpTarget) Seen() []seenReq {
@@ -126,7 +133,39 @@ func (t *httpTarget) Seen() []seenReq {
 	return append([]seenReq(nil), t.seen...)
 }
 
+// oneConnListener hands one established connection to an http.Server (the tunnel of a CONNECT request).
+type oneConnListener struct {
+	c    net.Conn
+	done bool
+}
+
+func (l *oneConnListener) Accept() (net.Conn, error) {
+	if l.done {
+		return nil, io.EOF
+	}
+	l.done = true
+	return l.c, nil
+}
+func (l *oneConnListener) Close() error   { return nil }
+func (l *oneConnListener) Addr() net.Addr { return l.c.LocalAddr() }
+
 func (t *httpTarget) ServeHTTP(w http.ResponseWriter, req *http.Request) {
+	if req.Method == http.MethodConnect {
+		// the target as an HTTP proxy (connect gun): establish the tunnel and serve the requests inside it like any other
+		t.mu.Lock()
+		t.connects = append(t.connects, req.RequestURI)
+		t.mu.Unlock()
+		if hj, ok := w.(http.Hijacker); ok {
+			if c, _, err := hj.Hijack(); err == nil {
+				c.Write([]byte("HTTP/1.1 200 Connection established\r\n\r\n"))
+				srv := &http.Server{Handler: t}
+				go srv.Serve(&oneConnListener{c: c}) // nosim
+				return
+			}
+		}
+		w.WriteHeader(http.StatusBadGateway)
+		return
+	}
 	body, _ := io.ReadAll(req.Body)
 	s := seenReq{Method: req.Method, URI: req.RequestURI, Host: req.Host, Hdr: map[string][]string{}, Body: body, Remote: req.RemoteAddr, TLS: req.TLS != nil, At: time.Since(t.t0), Seq: simrt.Seq()}
 	for k, v := range req.Header {
